@@ -74,7 +74,9 @@ theorem read_quoted (v : Bytes) (h0 : (0 : UInt8) ∉ v) (st : RS) (hst : st.ope
   have h1 : step ⟨mode, done, segs, lit, name⟩ SQ = ⟨.sq, done, segs, lit, name⟩ := by
     rcases hst with h | h <;> simp only [] at h <;> subst h <;>
       simp [step, stepUnq, isOperator, isExpansion, SP, TAB, NL, SQ, DQ, BSL, DOLLAR, BQ, AMP, BAR]
-  rw [readFrom_append, readFrom_append, readFrom_cons, readFrom_nil, h1, read_sq_body v h0]
+  have h2 : readFrom ⟨mode, done, segs, lit, name⟩ [SQ] = ⟨.sq, done, segs, lit, name⟩ := by
+    rw [readFrom_cons, readFrom_nil, h1]
+  rw [readFrom_append, readFrom_append, h2, read_sq_body v h0]
   simp [readFrom, step, SP, TAB, NL, SQ, DQ, BSL, DOLLAR, BQ, AMP, BAR]
 
 theorem read_blank (st : RS) (hst : st.open_) :
@@ -133,5 +135,145 @@ theorem expand_lits (bs : Bytes) (m : Bytes) : expand (bs.map RItem.lit) m = bs 
   induction bs with
   | nil => rfl
   | cons b bs ih => simp_all [expand]
+
+/-! ### the `escape` program of xzgrep/xzdiff: `s/'/'\\''/g ; $s/X$/'/` -/
+
+def escapeCmds : List Cmd :=
+  [⟨.all, ⟨false, [⟨[39]⟩], false⟩, [.lit 39, .lit 92, .lit 39, .lit 39], true⟩,
+   ⟨.last, ⟨false, [⟨[88]⟩], true⟩, [.lit 39], false⟩]
+
+theorem escQ_fun : (fun c => if (⟨[39]⟩ : Atom).mem c then expand [.lit 39, .lit 92, .lit 39, .lit 39] [c] else [c]) = escQ := by
+  funext c
+  by_cases h : c = 39 <;> simp [Atom.mem, escQ, expand, h, SQ]
+
+theorem runCmds_escape_mid (l : Bytes) : runCmds escapeCmds l false = l.flatMap escQ := by
+  simp only [runCmds, escapeCmds, List.foldl, Addr.applies, subst, substGo_class_global, escQ_fun]
+  simp
+
+theorem runCmds_escape_last (m : Bytes) : runCmds escapeCmds (m ++ [88]) true = m.flatMap escQ ++ [39] := by
+  have : (m ++ [88]).flatMap escQ = m.flatMap escQ ++ [88] := by simp [escQ, SQ]
+  simp only [runCmds, escapeCmds, List.foldl, Addr.applies, subst, substGo_class_global, escQ_fun, this, if_true]
+  rw [substGo_lit_eol]; simp [expand]
+
+/-- The sed cycle of `escape` on `s ++ "X\n"`: quotes are escaped, newlines stay, the final X becomes `'`. -/
+theorem sedStream_escape (s cur : Bytes) :
+    sedStream escapeCmds cur (s ++ [88, 10]) = cur.flatMap escQ ++ s.flatMap escQ ++ [39, 10] := by
+  induction s generalizing cur with
+  | nil =>
+    simp [sedStream, NL, runCmds_escape_last]
+  | cons c cs ih =>
+    by_cases h : c = NL
+    · subst h
+      have hne : cs ++ [88, 10] ≠ [] := by simp
+      have hq : escQ NL = [NL] := by simp [escQ, NL, SQ]
+      simp [sedStream, hne, runCmds_escape_mid, ih, hq]
+    · simp [sedStream, h, ih]
+
+/-! ### the label-escaping program of xzgrep: `s/[&\|]/\\&/g; $!s/$/\\/` -/
+
+def labelCmds : List Cmd :=
+  [⟨.all, ⟨false, [⟨[38, 92, 124]⟩], false⟩, [.lit 92, .whole], true⟩,
+   ⟨.notLast, ⟨false, [], true⟩, [.lit 92], false⟩]
+
+/-- within a line: `&`, `\`, `|` get a backslash -/
+def escL (c : UInt8) : Bytes := if c = 38 ∨ c = 92 ∨ c = 124 then [92, c] else [c]
+/-- over the whole name: additionally newline becomes backslash-newline -/
+def escN (c : UInt8) : Bytes := if c = NL then [92, NL] else escL c
+
+theorem escL_fun : (fun c => if (⟨[38, 92, 124]⟩ : Atom).mem c then expand [.lit 92, .whole] [c] else [c]) = escL := by
+  funext c
+  by_cases h1 : c = 38 <;> by_cases h2 : c = 92 <;> by_cases h3 : c = 124 <;> simp [Atom.mem, escL, expand, h1, h2, h3]
+
+theorem runCmds_label_mid (l : Bytes) : runCmds labelCmds l false = l.flatMap escL ++ [92] := by
+  simp only [runCmds, labelCmds, List.foldl, Addr.applies, subst, substGo_class_global, escL_fun, substGo_empty_eol]
+  simp [expand]
+
+theorem runCmds_label_last (l : Bytes) : runCmds labelCmds l true = l.flatMap escL := by
+  simp only [runCmds, labelCmds, List.foldl, Addr.applies, subst, substGo_class_global, escL_fun]
+  simp
+
+theorem sedStream_label (t cur : Bytes) :
+    sedStream labelCmds cur (t ++ [58, 10]) = cur.flatMap escL ++ t.flatMap escN ++ [58, 10] := by
+  induction t generalizing cur with
+  | nil => simp [sedStream, NL, runCmds_label_last, escL]
+  | cons c cs ih =>
+    by_cases h : c = NL
+    · subst h
+      have hne : cs ++ [58, 10] ≠ [] := by simp
+      simp [sedStream, hne, runCmds_label_mid, ih, escN, escL]
+    · simp [sedStream, h, ih, escN]
+
+/-- The replacement part of `s|^|…|` built from an escaped name denotes the name, byte for byte. -/
+theorem parseRepl_escN (t rest : Bytes) :
+    parseRepl 124 (t.flatMap escN ++ 124 :: rest) = some (t.map RItem.lit, rest) := by
+  induction t with
+  | nil => rw [parseRepl.eq_def]; simp
+  | cons c cs ih =>
+    by_cases h : c = 10
+    · subst h
+      simp only [List.flatMap_cons, escN, NL, if_true, List.cons_append, List.nil_append]
+      rw [parseRepl.eq_def]; simp [ih, NL, BSL, AMP]
+    · by_cases h1 : c = 38
+      · subst h1
+        simp only [List.flatMap_cons, escN, escL, NL]
+        rw [parseRepl.eq_def]; simp [ih, NL, BSL, AMP]
+      · by_cases h2 : c = 92
+        · subst h2
+          simp only [List.flatMap_cons, escN, escL, NL]
+          rw [parseRepl.eq_def]; simp [ih, NL, BSL, AMP]
+        · by_cases h3 : c = 124
+          · subst h3
+            simp only [List.flatMap_cons, escN, escL, NL]
+            rw [parseRepl.eq_def]; simp [ih, NL, BSL, AMP]
+          · have e : escN c = [c] := by simp [escN, escL, NL, h, h1, h2, h3]
+            simp only [List.flatMap_cons, e, List.cons_append, List.nil_append]
+            rw [parseRepl.eq_def]; simp [ih, NL, BSL, AMP, h, h1, h2, h3]
+
+theorem flatMap_escN_id (t : Bytes) (h : ∀ c ∈ t, c ≠ 10 ∧ c ≠ 38 ∧ c ≠ 92 ∧ c ≠ 124) : t.flatMap escN = t := by
+  induction t with
+  | nil => rfl
+  | cons c cs ih =>
+    have hc := h c (by simp)
+    have hcs : ∀ x ∈ cs, x ≠ 10 ∧ x ≠ 38 ∧ x ≠ 92 ∧ x ≠ 124 := fun x hx => h x (by simp [hx])
+    simp [List.flatMap_cons, escN, escL, NL, hc.1, hc.2.1, hc.2.2.1, hc.2.2.2, ih hcs]
+
+/-! ### globs -/
+
+theorem anySuffix_isEmpty (s : Bytes) : anySuffix (globMatch []) s = true := by
+  induction s with
+  | nil => simp [anySuffix, globMatch]
+  | cons c cs ih => simp [anySuffix, ih]
+
+theorem globMatch_star (ps : Glob) (s : Bytes) : globMatch (.star :: ps) s = anySuffix (globMatch ps) s := by
+  cases s <;> simp [globMatch]
+
+theorem globMatch_lit_star (c x : UInt8) (xs : Bytes) : globMatch [.cls false [c], .star] (x :: xs) = (x == c) := by
+  have h1 : globMatch [.star] xs = true := by rw [globMatch_star, anySuffix_isEmpty]
+  have h2 : globMatch [.cls false [c], .star] (x :: xs) = (([c].contains x != false) && globMatch [.star] xs) := by
+    simp only [globMatch]
+  rw [h2, h1]
+  by_cases h : x = c
+  · subst h; simp
+  · have h' : ¬ c = x := fun e => h e.symm
+    simp [h, h']
+
+theorem globMatch_lit_star_nil (c : UInt8) : globMatch [.cls false [c], .star] [] = false := by
+  simp [globMatch]
+
+theorem anySuffix_lit_star (c : UInt8) (s : Bytes) :
+    anySuffix (globMatch [.cls false [c], .star]) s = s.contains c := by
+  induction s with
+  | nil => simp [anySuffix, globMatch_lit_star_nil]
+  | cons x xs ih =>
+    simp only [anySuffix, ih, globMatch_lit_star]
+    by_cases h : x = c
+    · subst h; simp
+    · have h' : ¬ c = x := fun e => h e.symm
+      simp [h, h']
+
+/-- `*c*` matches exactly the strings that contain `c`. -/
+theorem globMatch_star_lit_star (c : UInt8) (s : Bytes) :
+    globMatch [.star, .cls false [c], .star] s = s.contains c := by
+  rw [globMatch_star, anySuffix_lit_star]
 
 end XzVerif.Shell
